@@ -12,6 +12,7 @@ import (
 	"fmt"
 	"math/big"
 	"sort"
+	"strconv"
 	"strings"
 	"sync"
 	"time"
@@ -59,20 +60,37 @@ func Cast(name string) *Actor {
 	return a
 }
 
-// Alias returns an actor with the SAME key pair as name but an address string built with another version byte
-// (the address format is base58(version | public key | checksum(version | public key))).
-func Alias(name string, version byte) *Actor {
+// Alias returns an actor with the SAME key pair as name under another address string. The address format is
+// base58(version | public key | checksum(version | public key)); kind selects how the string differs:
+// "vK" another version byte K (checksum recomputed), "c1" the last checksum byte altered, "t1" one byte appended
+// after the checksum. Only the genuine address is valid; the aliases probe rules that compare address strings.
+func Alias(name string, kind string) *Actor {
 	base := Cast(name)
-	aname := fmt.Sprintf("%s~v%d", name, version)
+	aname := name + "~" + kind
 	castMu.Lock()
 	defer castMu.Unlock()
 	if a, ok := cast[aname]; ok {
 		return a
 	}
-	payload := append([]byte{version}, base.W.Public...)
-	h1 := sha256.Sum256(payload)
-	h2 := sha256.Sum256(h1[:])
-	full := append(payload, h2[:4]...)
+	build := func(version byte) []byte {
+		payload := append([]byte{version}, base.W.Public...)
+		h1 := sha256.Sum256(payload)
+		h2 := sha256.Sum256(h1[:])
+		return append(payload, h2[:4]...)
+	}
+	var full []byte
+	switch {
+	case kind == "c1":
+		full = build(0)
+		full[len(full)-1] ^= 0x01
+	case kind == "t1":
+		full = append(build(0), 0x00)
+	case strings.HasPrefix(kind, "v"):
+		k, _ := strconv.Atoi(kind[1:])
+		full = build(byte(k))
+	default:
+		panic("world: alias kind " + kind)
+	}
 	a := &Actor{Name: aname, W: base.W, Addr: string(serializer.Base58Encode(full))}
 	cast[aname] = a
 	byAddr[a.Addr] = a
@@ -84,6 +102,9 @@ func KeyOf(addr string) string {
 	b, err := serializer.Base58Decode([]byte(addr))
 	if err != nil || len(b) < 6 {
 		return ""
+	}
+	if len(b) >= 37 {
+		return string(b[1:33]) // version | 32-byte key | checksum [| trailing bytes]
 	}
 	return string(b[1 : len(b)-4])
 }
